@@ -13,6 +13,7 @@ INVARIANT C15_TemplateTextVerbatim
 INVARIANT C16_OffNeverEscapes
 INVARIANT C03_WellFormed
 INVARIANT C04_StackIsChainOrder
+INVARIANT C29_Repeatable
 """
 
 
